@@ -35,7 +35,9 @@ def lifecycle_scenarios(n_producers, dispatchers=("backtesting", "realtime"), fu
                     if disp == "backtesting" and x == "cancel" and not inflight:
                         continue          # a backtest without anything in flight is over before it can be cancelled
                     out.append({"dispatcher": disp, "producers": [list(p) for p in ps], "exit": x, "inflight": inflight,
-                                "mc": 4})
+                                "mc": 4,
+                                # every third scenario: user code wraps the log record factory during the run
+                                "wrap_factory": disp == "backtesting" and len(out) % 3 == 1})
     return out
 
 
@@ -88,6 +90,12 @@ async def _run_lifecycle(sc):
 
     async def handler(ev):
         log.append(("H", ev.n))
+        if ev.n == 0 and sc.get("wrap_factory"):
+            inner = logging.getLogRecordFactory()
+
+            def wrapping_factory(*args, **kwargs):
+                return inner(*args, **kwargs)
+            logging.setLogRecordFactory(wrapping_factory)
         if ev.n == 0 and sc["inflight"]:
             try:
                 await asyncio.Event().wait()            # a handler in flight when the run ends
